@@ -86,6 +86,8 @@ func (vc *ConnCursor) Eof() bool    { return vc.eof }
 func (vc *ConnCursor) Close() error { return nil }
 
 func (vc *ConnCursor) Filter(_ int, idxStr string, values ...sqlite.Value) error {
+	// every scan of the cursor (one per outer row of a join) returns the row
+	vc.eof = false
 	return nil
 }
 
